@@ -644,8 +644,19 @@ func writeReplay(prop string, j Job, r *JobResult, sig string) string {
 	name := fmt.Sprintf("%s-%x.json", prop, h[:5])
 	p := filepath.Join(dir, name)
 	os.WriteFile(p, b, 0o644)
+	// a plain Go unit test performing the same calls without the explorer
+	if mk, ok := sysForJob[j.Kind]; ok {
+		if s := mk(j); s != nil {
+			if src := goTestFor(s, r.Found.Path, r.Found.Last, fmt.Sprintf("Replay_%s_%x", prop, h[:5]), r.Found.V.Msg); src != "" {
+				os.WriteFile(strings.TrimSuffix(p, ".json")+"_test.go.txt", []byte(src), 0o644)
+			}
+		}
+	}
 	return p
 }
+
+// sysForJob: job kinds whose system can be rebuilt by the driver (for the generated Go test)
+var sysForJob = map[string]func(j Job) Sys{}
 
 func replayMain(file string) int {
 	b, err := os.ReadFile(file)
